@@ -88,7 +88,7 @@ structure Env (G : Type) where
   policy : Blue.Gc.Policy
   /-- `false`: the code as it is — once the outputs of a garbage collection are exhausted the rest of
       the inputs goes to the computed discard unexamined; `true`: the rest is compared with the
-      collector too (fixes/c04-verify-gc-tail.diff) -/
+      collector too (a variant tried in a scratch copy, not in /repo) -/
   tailChecked : Bool := false
 
 /-- `sst::Setsum::insert` over a cursor walk, from `Setsum::default()` -/
